@@ -102,6 +102,17 @@ func genGov(fc *fileCache) {
 	g.fact("earlyPassRefunds_found", "Bool", boolStr(ok), "")
 	g.found = append(g.found, "earlyPassRefunds_found")
 
+	// SecurityTally: a stored vote counts only if its voter is a certifier when the round is tallied
+	{
+		txt := ""
+		if fd := fc.fn(tl, "SecurityTally"); fd != nil {
+			if e := ifCond("IsCertifier", 0)(fc, fd); e != nil {
+				txt = src(fc.fset, e)
+			}
+		}
+		g.fact("secTallySkipsUnless", "String", quote(txt), "SecurityTally: the condition under which a stored vote is skipped")
+	}
+
 	opt := map[string]Var{"option": {"o", "int"}, "govTypes.OptionYes": iv("(1 : Int)"), "govTypes.OptionNo": iv("(3 : Int)"),
 		"govTypes.OptionAbstain": iv("(2 : Int)"), "govTypes.OptionNoWithVeto": iv("(4 : Int)")}
 	emitSite(fc, g, Site{Name: "certifierRoundBadOption", File: vt, Func: "AddVote", Loc: ifCond("option == govTypes.OptionYes", 0),
